@@ -601,12 +601,14 @@ MANIFEST = {
             "every artefact of a clean deployment of the final sources, identically, and succeeds iff it does "
             "(deploy_reaches_clean, unbounded, by the invariant 'stored checksums/timestamps describe built_from'); right after a "
             "schema's update its compiled config, table, reverse db and prism are built from the current sources "
-            "(edited_schema_never_stale); fresh artefacts are never rewritten (noop, per artefact). Every run replays seeded edit "
+            "(edited_schema_never_stale); the second of two deployments of unchanged sources returns the same build directory and "
+            "logs no rebuild when no two schema updates write different artefacts under one name (noop_deploy_rewrites_nothing); "
+            "compiled configs depend on whatever the config compiler loaded (deps_fn, closed under deps_closed). Every run replays seeded edit "
             "histories (rows, algebra, .custom.yaml patches, imports, packs, schema list, vocabulary, touches, no-ops) through the "
             "real rime_deployer and the extracted model and compares decision logs and, implementation against implementation, the "
             "build directory with a clean deployment's after every step.",
-    "note": "Partial: the workspace-level no-op statement is proved per artefact only (shared prism names break it in the model and "
-            "in librime; hypothesis). Hypotheses: CRC32 injective on occurring contents, distinct non-zero mtimes, every referenced "
+    "note": "The workspace-level no-op statement is proved under the explicit hypothesis no_shared_outputs (no two schema updates "
+            "write different artefacts under one name; the shared-prism workspace violates it, in the model and in librime). Hypotheses: CRC32 injective on occurring contents, distinct non-zero mtimes, every referenced "
             "dictionary has its source, compiled configs depend on default/default.custom/<x>.custom/<x>.schema only. The YAML and "
             "dictionary-header parsers are external functions sampled from the implementation. Print Assumptions: closed under the "
             "global context for every theorem.",
